@@ -308,6 +308,11 @@ func (w *world) connect(withHandler bool, extra ...jsonrpc.Option) (*client, err
 	if !w.e.RT.WaitCount("srv.conn", id, 2*time.Second) {
 		return nil, fmt.Errorf("server connection %d did not appear", id)
 	}
+	// both endpoints' main loops have started before the next client connects: the trace then lists
+	// server-role and client-role connections in the same order (that order is how they are paired)
+	if !w.e.RT.WaitCount("main.start", 2*id, 2*time.Second) {
+		return nil, fmt.Errorf("the main loops of connection %d did not both start", id)
+	}
 	return c, nil
 }
 
